@@ -23,10 +23,13 @@ CHECKS = {
  "C09": ("model_checking", "6 C09", "C09_Clauses model-checked incl. the race between one worker's Record and another's StopCheck (separate actions); gated replay where all other workers are parked while the failure is handled (strict clause, confirmed with 20/100/400 ms settle pauses before it counts); noFakeSuccess on every slot; judged by TLC."),
  "C11": ("model_checking", "6 C11", "C11_Clauses model-checked with cancellation from inside any exec/fallback/post or before the run, with retry waits; gated replay with cancel and manually-expired deadline contexts; hang watchdog; judged by TLC."),
  "C12": ("model_checking", "6 C12", "FlytPool.tla (Submit = Add + blocking send, FIFO queue of 2*workers, worker select loop, Wait, Close) model-checked over every interleaving of submitters/workers/rounds (state invariants AtMostOnce, WgExact, WaitBarrier, RoundBarrier, PoolBound; liveness Close ~> all workers exited under weak fairness); C12_Clauses (one-pass monitor over submit/submitret/taskstart/taskend/waitcall/waitret/leak events) checked on the gated-scheduler behaviours, which are replayed on the real pool (gated submitters and task bodies); random pools to 16 workers / 500 tasks / 4 submitters / 3 rounds under the race detector with plain writes read back after Wait and a goroutine-dump leak probe; judged by TLC."),
+ "C13": ("model_checking", "6 C13", "Linearizability decided history by history by TLC: FlytStoreConc.tla (Call / silent Lin applying StoreSem!Apply atomically / Ret must return what Lin computed) must have a behaviour consuming each recorded call/ret history (2-6 goroutines from a barrier, all operations incl. Merge of up to 8 keys, Clear, GetAll, Keys, Len, typed getters); the lock-level model FlytStoreLock.tla (RWMutex, per-key loop bodies) is model-checked to refine the atomic store; recording and an additional stress run execute under the Go race detector (a report is a violation)."),
+ "C14": ("model_checking", "6 C14", "FlytStore.tla explores every operation sequence (with snapshot mutation / read-back / merge-snapshot steps) over 2 keys x values incl. nil up to the bound, checking mutual consistency of Has/Len/Keys/GetAll in every state; every exported sequence is replayed on the real store; PropsStore!Replay (fold of StoreSem!Apply) is evaluated by TLC on every recorded history incl. random sequences up to 200 operations over 12 keys (empty and non-ASCII keys, nil values)."),
 }
 ENGINE = ["C01", "C02", "C03", "C04", "C05", "C10", "C17", "C18"]
 BATCH = ["C06", "C07", "C08", "C09", "C11"]
 POOL = ["C12"]
+STORE = ["C13", "C14"]
 
 checks = []
 for p in props:
@@ -40,7 +43,7 @@ for p in props:
         "thorough_cmd": "./check %s --tier thorough" % pid,
         "evidence_file": "/verif/evidence/%s.json" % pid,
         "replay_cmd_template": "./check replay {path}",
-        "engine": "tla-engine" if pid in ENGINE else "tla-batch" if pid in BATCH else "tla-pool" if pid in POOL else "tla",
+        "engine": "tla-engine" if pid in ENGINE else "tla-batch" if pid in BATCH else "tla-pool" if pid in POOL else "tla-store" if pid in STORE else "tla",
         "level_claimed": {"category": cat, "text": text, "design_ref": "DESIGN.md section " + ref},
         "level_note": TRUST,
         "technique": "explicit TLA+ spec model-checked with TLC; TLC-generated behaviours replayed into the real code; TLA+ property predicates evaluated by TLC on histories recorded from the real code",
@@ -56,6 +59,8 @@ m = {
  "engines": [
    {"name": "tla-engine", "path": "/verif/spec/FlytEngine.tla", "serves_properties": ENGINE,
     "kind_free_text": "TLA+ operational spec of Run/Flow/function nodes + PropsEngine.tla predicates + MCEngine/TPEngine front-ends + Go harness"},
+   {"name": "tla-store", "path": "/verif/spec/StoreSem.tla", "serves_properties": ["C13", "C14"],
+    "kind_free_text": "StoreSem (sequential semantics), FlytStore (bounded MC + export), PropsStore (replay predicate), FlytStoreConc (linearizability search over recorded histories), FlytStoreLock (lock-level refinement) + Go harness"},
    {"name": "tla-pool", "path": "/verif/spec/FlytPool.tla", "serves_properties": ["C12", "C08"],
     "kind_free_text": "TLA+ operational spec of WorkerPool + PropsPool.tla monitor + MCPool/TPPool + gated Go harness under -race"},
    {"name": "tla-batch", "path": "/verif/spec/FlytBatch.tla", "serves_properties": BATCH + ["C02", "C04", "C18"],
